@@ -2,7 +2,11 @@
 // full-buffer comparison, and the operation interpreter shared by all C07 subchecks.
 #pragma once
 
+#include <fcntl.h>
 #include <math.h>
+#include <stdio.h>
+#include <sys/mman.h>
+#include <unistd.h>
 
 #include <set>
 
@@ -26,11 +30,66 @@ struct Rng {
   }
 };
 
+// ---------------------------------------------------------------- images with a chosen maximum sample value
+// Every way Image.hh offers to obtain an image whose max_value is not the all-ones value of its channel width:
+//   route 0..2  the raw-data constructors Image(FILE* / const char* / const std::string&, w, h, has_alpha, channel_width, max_value)
+//   route 3     loading a Netpbm file whose MAXVAL is that value (P6 for opaque, P7 RGB_ALPHA for alpha canvases); only possible when
+//               the MAXVAL selects the wanted channel width and the canvas is not empty - otherwise route 0 is used
+// The pixel data is all zero in every case (the raw-data constructors read from /dev/zero); content is written afterwards.
+// max_value 0 or the all-ones value: the ordinary sized constructor.
+inline unsigned cw_of_maxval(uint64_t mv) { return mv > 0xFFFFFFFFULL ? 64 : mv > 0xFFFF ? 32 : mv > 0xFF ? 16 : 8; }
+
+inline phosg::Image make_image(int64_t w, int64_t h, bool alpha, unsigned cw, uint64_t mv = 0, unsigned route = 0) {
+  if (mv == 0 || mv == mask_of(cw)) return phosg::Image(w, h, alpha, cw);
+  if (mv > mask_of(cw)) throw std::logic_error("make_image: maximum value beyond the channel width is outside the domain");
+  route &= 3;
+  if (route == 3 && w > 0 && h > 0 && cw_of_maxval(mv) == cw) {
+    static int fd = memfd_create("c07-pnm", 0);
+    if (fd < 0) throw std::logic_error("memfd_create failed");
+    std::string hdr = alpha ? cat("P7\nWIDTH ", w, "\nHEIGHT ", h, "\nDEPTH 4\nMAXVAL ", mv, "\nTUPLTYPE RGB_ALPHA\nENDHDR\n") : cat("P6 ", w, " ", h, " ", mv, "\n");
+    size_t total = hdr.size() + static_cast<size_t>(w * h) * (alpha ? 4 : 3) * (cw / 8);
+    if (ftruncate(fd, 0) != 0 || ftruncate(fd, total) != 0) throw std::logic_error("ftruncate failed"); // the raster reads as zeros
+    if (pwrite(fd, hdr.data(), hdr.size(), 0) != static_cast<ssize_t>(hdr.size())) throw std::logic_error("pwrite failed");
+    int d = dup(fd);
+    lseek(d, 0, SEEK_SET);
+    FILE* f = fdopen(d, "rb");
+    if (!f) throw std::logic_error("fdopen failed");
+    try {
+      phosg::Image img(f);
+      fclose(f);
+      return img;
+    } catch (...) {
+      fclose(f);
+      throw;
+    }
+  }
+  if (route == 1) return phosg::Image("/dev/zero", w, h, alpha, cw, mv);
+  if (route == 2) return phosg::Image(std::string("/dev/zero"), w, h, alpha, cw, mv);
+  FILE* f = fopen("/dev/zero", "rb");
+  if (!f) throw std::logic_error("cannot open /dev/zero");
+  try {
+    phosg::Image img(f, w, h, alpha, cw, mv);
+    fclose(f);
+    return img;
+  } catch (...) {
+    fclose(f);
+    throw;
+  }
+}
+
+// some maximum values that are not the all-ones value, per channel width
+inline uint64_t alt_maxval(unsigned cw, unsigned k) {
+  static const uint64_t t8[4] = {100, 1, 254, 127}, t16[4] = {1000, 0xFF, 0xFFFE, 300}, t32[4] = {70000, 0xFFFF, 0xFFFFFFFEULL, 0xFF},
+                        t64[4] = {(1ULL << 40) + 5, 0xFFFFFFFFULL, UINT64_MAX - 1, 0xFF};
+  const uint64_t* t = cw == 8 ? t8 : cw == 16 ? t16 : cw == 32 ? t32 : t64;
+  return t[k % 4];
+}
+
 struct Canvas {
   phosg::Image img;
   Model m;
   Canvas() = default;
-  Canvas(int64_t w, int64_t h, bool alpha, unsigned cw) : img(w, h, alpha, cw), m(w, h, alpha, cw) {}
+  Canvas(int64_t w, int64_t h, bool alpha, unsigned cw, uint64_t mv = 0, unsigned route = 0) : img(make_image(w, h, alpha, cw, mv, route)), m(w, h, alpha, cw, mv) {}
 };
 
 // raw buffer -> 4 slots per pixel (independent of read_pixel)
@@ -67,7 +126,8 @@ inline RGBA named_colour(unsigned k, uint64_t M) {
 // raw buffer, not through write_pixel
 inline void fill_content(Canvas& c, uint64_t seed) {
   Rng r(seed);
-  uint64_t M = c.m.maxv();
+  uint64_t M = c.m.mask();
+  uint64_t V = c.m.maxv(); // == M unless the canvas has a maximum value of its own: then the special values are that one
   size_t nc = c.m.alpha ? 4 : 3;
   size_t bw = c.m.cw / 8;
   uint8_t* d = static_cast<uint8_t*>(c.img.get_data());
@@ -75,7 +135,7 @@ inline void fill_content(Canvas& c, uint64_t seed) {
     uint64_t k = r.next();
     RGBA p;
     if ((k & 3) == 0) {
-      p = named_colour((k >> 2) % 6, M);
+      p = named_colour((k >> 2) % 6, V);
     } else {
       p.r = r.next();
       p.g = r.next();
@@ -84,7 +144,7 @@ inline void fill_content(Canvas& c, uint64_t seed) {
     switch ((k >> 8) % 6) {
       case 0: p.a = 0; break;
       case 1: p.a = 0xFF; break;
-      case 2: p.a = M; break;
+      case 2: p.a = V; break;
       case 3: p.a = 0x80; break;
       default: p.a = r.next();
     }
@@ -98,6 +158,7 @@ inline void fill_content(Canvas& c, uint64_t seed) {
 }
 
 inline std::string describe(const Model& m) {
+  if (m.mv != m.mask()) return cat(m.w, "x", m.h, m.alpha ? " alpha" : " opaque", " cw=", m.cw, " max=", m.mv);
   return cat(m.w, "x", m.h, m.alpha ? " alpha" : " opaque", " cw=", m.cw);
 }
 
@@ -115,6 +176,24 @@ inline std::string diff(const phosg::Image& img, const Model& m) {
       return cat("pixel (", px % m.w, ",", px / m.w, ") channel ", i % 4, " is 0x", std::hex, v[i], ", model says 0x", m.v[i], std::dec, " on ", describe(m));
     }
   }
+  return "";
+}
+
+// The image's max_value has no accessor; it is observed the two ways the API shows it: an opaque canvas reports it as the alpha of
+// every pixel, and operator== compares it - so the image must equal a reference built with the model's geometry and maximum value
+// and the image's own bytes. Empty string when the image agrees with the model.
+inline std::string max_value_diff(const phosg::Image& img, const Model& m) {
+  if (!m.alpha && m.w > 0 && m.h > 0) {
+    uint64_t a = ~m.mv;
+    img.read_pixel(0, 0, nullptr, nullptr, nullptr, &a);
+    if (a != m.mv) return cat("read_pixel reports alpha ", a, " on an opaque canvas whose maximum value is ", m.mv, " (", describe(m), ")");
+    if (m.mv == m.mask()) return "";
+  }
+  phosg::Image ref = make_image(m.w, m.h, m.alpha, m.cw, m.mv, 0);
+  if (ref.get_data_size() != img.get_data_size()) return "reference image has another data size";
+  if (img.get_data_size()) memcpy(ref.get_data(), img.get_data(), img.get_data_size());
+  bool eq = (img == ref) && !(img != ref) && (ref == img);
+  if (!eq) return cat("operator== says the image differs from an image constructed with the same geometry, bytes and maximum value ", m.mv, " (", describe(m), ")");
   return "";
 }
 
@@ -204,7 +283,7 @@ inline int run_catching(F&& f, std::string* what = nullptr) {
 template <typename Draw>
 inline std::set<std::pair<int64_t, int64_t>> marked_pixels(const Model& like, const RGBA& colour, Draw&& draw, const char* opname) {
   Canvas s(like.w, like.h, like.alpha, like.cw);
-  uint64_t M = like.maxv();
+  uint64_t M = like.mask();
   RGBA bg{~colour.r & M, ~colour.g & M, ~colour.b & M, ~colour.a & M};
   m_clear(s.m, bg);
   s.img.clear(bg.r, bg.g, bg.b, bg.a);
